@@ -505,8 +505,8 @@ func rulePopReport(w *World, r *RuleResult) {
 		return
 	}
 	d := newDedup(r)
-	for _, call := range w.Callers(c.a.Exec) {
-		fn := call.Parent()
+	for _, callRoot := range w.CallerRoots(c.a.Exec) {
+		fn := callRoot
 		paths, err := w.Paths(fn)
 		if err != nil {
 			r.undecided(fn.Name(), w.Pos(fn.Pos()), err.Error())
